@@ -274,7 +274,10 @@ def request_line(c):
         t = template_sexp(c.template)
     except SyntaxError:
         return None
-    return '%s %s %s' % (op, sexp(_strs(t)), sexp(_strs(c.bindings)))
+    btxt = sexp(_strs(c.bindings))
+    if 'Unknown:' in btxt:
+        return None          # a binding that is already ill-typed (e.g. a statement inside an expression): outside the domain
+    return '%s %s %s' % (op, sexp(_strs(t)), btxt)
 
 
 def compare(c, answer):
